@@ -7,7 +7,8 @@
    the generator by extraction).  Acceptance of normalised forms: C02_pypi_accepts_*. *)
 From Coq Require Import List ZArith Lia.
 From DepsDev Require Import Lib.Base Lib.Order Semver.Version Semver.Pep440 Semver.Pep440Parse Semver.Compare
-  Spec.Pep440Spec Semver.Pep440Abs Semver.Pep440_proofs Semver.Pep440Parse_proofs.
+  Spec.Pep440Spec Semver.Pep440Abs Semver.Pep440_proofs Semver.Pep440Parse_proofs Semver.Pep440C02_proofs
+  Semver.Pep440Link_proofs.
 Import ListNotations.
 Local Open Scope Z_scope.
 
@@ -75,6 +76,48 @@ Proof.
   intros H. destruct C02_pypi_witness_post0 as [G R]. specialize (H _ _ _ _ G R). discriminate.
 Qed.
 Print Assumptions C02_pypi_refuted.
+
+(* The statement on the sub-domain c02_pypi_dom of PEP 440 (all alternative spellings,
+   epochs, pre/post/dev in any combination; excluded: a local segment attached to a
+   pre-, post- or dev-release, upper-case letters in a local segment, post0 attached to a
+   pre-release, and numbers beyond the machine width), for ALL strings a, b:
+   whenever both Parse and the reference accept both strings and the reference versions
+   are in the domain, the sign of Go's Compare is the reference comparison. *)
+Theorem C02_pypi_partial a b va vb pa pb :
+  parse_pypi a = Ok va -> parse_pypi b = Ok vb ->
+  spec_parse a = Some pa -> spec_parse b = Some pb ->
+  c02_pypi_dom pa = true -> c02_pypi_dom pb = true ->
+  Z.sgn (vcmp va vb) = spec_compare pa pb.
+Proof. exact (c02_strings a b va vb pa pb). Qed.
+Print Assumptions C02_pypi_partial.
+
+(* the same at the level of the comparators, for any stored structures that represent
+   reference versions of the domain *)
+Theorem C02_pypi_partial_compare va vb pa pb :
+  pv_wf pa -> pv_wf pb -> c02_pypi_dom pa = true -> c02_pypi_dom pb = true ->
+  abs_rel va pa -> abs_rel vb pb ->
+  Z.sgn (pypi_cmp va vb) = spec_compare pa pb.
+Proof. exact (c02_compare_abs va vb pa pb). Qed.
+Print Assumptions C02_pypi_partial_compare.
+
+(* What Parse stores for a string of the grammar is the reference version (when the
+   pre/post/dev numbers fit 63 bits). *)
+Theorem C02_pypi_parse_link s v p :
+  parse_pypi s = Ok v -> spec_parse s = Some p -> c02_dom_width p = true ->
+  abs_rel (v_num v, ext_of v) p /\ pv_wf p.
+Proof. exact (parse_link s v p). Qed.
+Print Assumptions C02_pypi_parse_link.
+
+(* the domain is inhabited by non-trivial versions: 1!2.0rc1.post2.dev3 and 1.0+ubuntu.1 *)
+Example C02_pypi_dom_inhabited :
+  (exists p, spec_parse [49;33;50;46;48;114;99;49;46;112;111;115;116;50;46;100;101;118;51]%N = Some p /\ c02_pypi_dom p = true) /\
+  (exists p, spec_parse [49;46;48;43;117;98;117;110;116;117;46;49]%N = Some p /\ c02_pypi_dom p = true) /\
+  go_cmp [49;33;50;46;48;114;99;49;46;112;111;115;116;50;46;100;101;118;51]%N [49;46;48;43;117;98;117;110;116;117;46;49]%N = Some 1 /\ ref_cmp [49;33;50;46;48;114;99;49;46;112;111;115;116;50;46;100;101;118;51]%N [49;46;48;43;117;98;117;110;116;117;46;49]%N = Some 1.
+Proof.
+  split; [eexists; split; [vm_compute; reflexivity | vm_compute; reflexivity]|].
+  split; [eexists; split; [vm_compute; reflexivity | vm_compute; reflexivity]|].
+  split; vm_compute; reflexivity.
+Qed.
 
 (* A version written in the reference's normalised form is always accepted. *)
 Definition C02_pypi_accepts_full : Prop :=
